@@ -22,7 +22,7 @@ PROP = {
 
 
 def run(ctx, case):
-    spec, hints = case["spec"], case.get("hints")
+    spec, hints = specs.expand_case(case)
     t = spec["t"]
     want = specs.canon(spec)
     ok, blk = ctx.must(lambda: specs.build(spec, hints), f"{t}/build", f"constructing a valid {t} block")
@@ -53,7 +53,7 @@ def run(ctx, case):
         if ok and w2 != w:
             i = next((k for k in range(min(len(w), len(w2))) if w[k] != w2[k]), min(len(w), len(w2)))
             ctx.fail(f"{t}/reencode-differs", f"{t}: re-encoding the decoded block gives different bytes (len {len(w2)} vs {len(w)}, first difference at byte {i})")
-    if ok and t in specs.RLE_TYPES and codec.items(spec) and not case.get("_second_pass"):
+    if ok and t in specs.RLE_TYPES and codec.items(spec) and not case.get("_second_pass") and "boundary" not in case and "longrun" not in case:
         # the same block object, its gap pattern changed in place, must round-trip again to what it holds NOW
         import copy
 
@@ -115,6 +115,12 @@ def _adapter(spec, raw, tail):
 SUBS.append(Sub("long-tracks", run, strategy=_long_strategy, budget=(16, 400), shards=(8, 16),
                 rule="blocks of the four run-length types with 1-2 tracks of 257 .. 131079 frames, gaps starting / ending exactly at power-of-two frame "
                      "numbers, thousands of runs, all input dtypes / byte orders / memory layouts"))
+SUBS.append(Sub("boundary-counts", run, kind="enum", enumerate=specs.enum_boundary, shards=(8, 16),
+                rule="78 fixed blocks whose counts sit on 2^8 / 2^15 / 2^16 (values per event, items per block, runs per track, frames per track, points per 2D cell, links); "
+                     "finite, enumerated", nontrivial_required=False))
+SUBS.append(Sub("long-runs-all-dtypes", run, kind="enum", enumerate=specs.enum_long_runs, shards=(8, 16),
+                rule="each run-length type x one gap-free run of 8189 / 8190 / 16382 / 65537 frames x input dtype <f4 <f8 >f4 >f8 x C / F order; finite, enumerated",
+                nontrivial_required=False))
 SUBS += [Sub(f"fuzz:{t}", run, kind="fuzz", fuzz_target=("spec", t, _adapter), budget=(0, 60000), shards=(1, 2),
              rule=f"Atheris/libFuzzer, library instrumented: bytes -> {t} spec via the reference decoder (domain filter) -> same round-trip oracle; "
                   "shard 0 starts from a corpus of reference-encoded generated blocks, shard 1 from an empty corpus") for t in specs.TYPES]
